@@ -146,9 +146,13 @@ def atom_key(a):
     return (tbl, d.get("number"), A, q)
 
 
+ALIAS = {}      # private table name -> "public" while a private table is digested
+
+
 def canon_atom(a):
     try:
-        return ["A"] + list(atom_key(a))
+        k = atom_key(a)
+        return ["A", ALIAS.get(k[0], k[0]), k[1], k[2], k[3]]
     except Exception as e:  # noqa: BLE001
         return ["A?", type(e).__name__]
 
